@@ -135,3 +135,27 @@ class Holder:
     @types.hashable_function('ident-a')
     def meth(x):
         return x
+
+
+# constructors that collect keywords through **kwargs: the keyword part arrives in CALL order, so canonicalisation has to
+# sort it (added after an independently seeded change that dropped the sorting was missed)
+class ImmKw(types.Immutable):
+    def __init__(self, a, **kw):
+        self.a = a
+        self.b = kw.get('b')
+        self.c = kw.get('c')
+
+
+class SingKw(types.Singleton):
+    def __init__(self, a, **kw):
+        self.a = a
+        self.b = kw.get('b')
+        self.c = kw.get('c')
+
+
+def make_kw(cls):
+    def mk(*args, **kw):
+        if args:
+            return cls(args[0], **dict(zip(('b', 'c'), args[1:])), **kw)
+        return cls(**kw)   # keyword order of the call is preserved
+    return mk
